@@ -6,11 +6,11 @@ import common as C
 from gen import matchers as G
 
 PROPERTY = "C17"
-LEAN_MODULES = ["LccModel.Props.C17", "LccModel.Props.C17Seq", "LccModel.Props.C17Values", "LccModel.Model.MatcherObjJson", "LccModel.Model.MatcherXValJson",
+LEAN_MODULES = ["LccModel.Props.C17", "LccModel.Props.C17Seq", "LccModel.Props.C17Values", "LccModel.Props.C17Keys", "LccModel.Model.MatcherObjJson", "LccModel.Model.MatcherXValJson",
                 "LccModel.Proto"]   # the last two: what drivers/C17.lean imports
-PROPS_FILES = ["LccModel/Props/C17.lean", "LccModel/Props/C17Seq.lean", "LccModel/Props/C17Values.lean"]
+PROPS_FILES = ["LccModel/Props/C17.lean", "LccModel/Props/C17Seq.lean", "LccModel/Props/C17Values.lean", "LccModel/Props/C17Keys.lean"]
 NAMESPACES = {"LccModel/Props/C17.lean": "LccModel.C17", "LccModel/Props/C17Seq.lean": "LccModel.C17Seq",
-              "LccModel/Props/C17Values.lean": "LccModel.C17Values"}
+              "LccModel/Props/C17Values.lean": "LccModel.C17Values", "LccModel/Props/C17Keys.lean": "LccModel.C17Keys"}
 DRIVER = "drivers/C17.lean"
 TRUSTED_BASE = [
     "Lean 4.33.0 kernel; axioms of the property theorems ⊆ {propext, Classical.choice, Quot.sound}",
@@ -407,6 +407,46 @@ ALPHABETS["X"] = {
                ["equal_to", ["tuple", [["i", 1], ["i", 2]]]], ["equal_to", ["l", [["i", 1], ["i", 2]]]]],
     "unary": [["not_"], ["has_item"], ["has_entry", ["k"]], ["has_all_items"]],
 }
+# key paths whose keys hold the wording's own separators (", " / " -> " / quotes / brackets), next to the real multi-level paths they
+# could be mistaken for; the documents that hold an entry at exactly one of these paths join the separating domain (path_witnesses)
+_KP = [[k] for k in G.SEP_KEYS] + [["a"], ["b"], ["a", "b"], ["a", "b, c"], ["a, b", "c"], ["a", "b", "c"], ["a -> b", "c"], ["a", "b -> c"],
+                                   [1], [1, "a"], ["1", "a"], [0, 1], ["0, 1"], []]
+ALPHABETS["K"] = {
+    "leaves": [["has_key", p] for p in _KP] + [["has_entry", p, ["equal_to", ["i", 1]]] for p in _KP[:8] + [["a", "b"], ["a"]]],
+    "unary": [["not_"], ["has_item"], ["has_entry", ["k"]], ["has_entry", ["a, b"]], ["has_entry", ["a", "b"]]],
+}
+
+
+def _paths_of(e, out):
+    if isinstance(e, list) and e and e[0] in ("has_entry", "has_key") and len(e) >= 2 and isinstance(e[1], list):
+        out.append(list(e[1]))
+    if isinstance(e, list):
+        for x in e[1:] if e and isinstance(e[0], str) else e:
+            if isinstance(x, list):
+                _paths_of(x, out)
+
+
+def path_witnesses(exprs, cap=40):
+    """for every key path a has_entry of the pool looks up: a document that holds an entry (the value 1, and the value None) at
+    exactly that path — the values that tell two key paths apart"""
+    paths, seen, docs = [], set(), []
+    for e in exprs:
+        _paths_of(e, paths)
+    for p in paths:
+        key = repr(p)
+        if key in seen or not p:
+            continue
+        seen.add(key)
+        for leaf in (1, None):
+            doc = leaf
+            for k in reversed(p):
+                doc = {k: doc}
+            docs.append(doc)
+        if len(docs) >= cap:
+            break
+    return docs
+
+
 # separates the leaves of both alphabets and what the unary constructors make of them
 DOMAIN = [None, True, ["i", 0], ["i", 1], ["i", 2], ["f", 3], ["s", "a"], ["s", "ab"], ["s", "b"], ["l", []], ["l", [["i", 1]]],
           ["l", [["i", 1], ["s", "a"]]], ["l", [["s", "a"]]], ["l", [None]], ["l", [["l", [["i", 1]]]]], ["l", [["i", 0], ["i", 2]]],
@@ -568,6 +608,11 @@ class Inject(C.Stream):
         # D45 (open): a composite behind hide_result_details() is written on its parent's line: "a or b and c" is ambiguous
         {"mode": "pool", "exprs": [["any_of", [_a, ["hide", ["all_of", [_b, ["is_none"]]]]]], ["all_of", [["hide", ["any_of", [_a, _b]]], ["is_none"]]],
                                   ["any_of", [_a, ["all_of", [_b, ["is_none"]]]]]]},
+        # a key that holds the wording's own separators is not a multi-level path (minimised failing inputs of seeded/C17-11)
+        {"mode": "pool", "exprs": [["has_key", ["a, b"]], ["has_key", ["a -> b"]]]},
+        {"mode": "pool", "exprs": [["has_key", p] for p in _KP] + [["not_", ["has_key", p]] for p in _KP[:6]] +
+                                  [["has_entry", p, ["equal_to", ["i", 1]]] for p in (["a, b"], ["a -> b"], ["a", "b"], ['a", "b'], ['a" -> "b'])] +
+                                  [["has_entry", ["k"], ["has_key", p]] for p in (["a, b"], ["a -> b"], ["a", "b"])]},
         # D12 / D13 (fixed)
         {"mode": "pool", "exprs": [["all_of", [["not_", _a], _b]], ["all_of", [["not_", _a], ["not_", _b]]]]},
         {"mode": "pool", "exprs": [["not_", ["not_", _a]], ["not_", _a]]},
@@ -591,7 +636,7 @@ class Inject(C.Stream):
         return es if case["mode"] == "exh-all" else es[case["lo"]:case["hi"]]
 
     def gen(self, rng, i):
-        alpha = ALPHABETS[rng.choice(["S", "L", "L", "N", "N", "NC", "X"])]
+        alpha = ALPHABETS[rng.choice(["S", "L", "L", "N", "N", "NC", "X", "K"])]
         pool = []
         for _ in range(rng.choice([15, 25, 40])):
             e = gen_pool_expr(rng, alpha, rng.choice([1, 2, 2, 3]))
@@ -617,6 +662,8 @@ class Inject(C.Stream):
         env = G.Env([], made=([] if case["mode"] == "pool" else None))
         matchers = [G.to_matcher(e, env=env) for e in exprs]
         extra = identity_domain(env.made) if env.made else []
+        if case["mode"] == "pool":
+            extra = extra + path_witnesses(exprs)
         n_raise = 0
         for k, (e, m) in enumerate(zip(exprs, matchers)):
             try:
@@ -717,6 +764,13 @@ class Inject(C.Stream):
                 f.append("description-raises")
             if obs.get("identity_domain"):
                 f.append("identity-domain")
+            ps = []
+            for e in es:
+                _paths_of(e, ps)
+            if any(isinstance(k, str) and (", " in k or " -> " in k) for p in ps for k in p):
+                f.append("key-holds-wording-separator")
+            if any(len(p) >= 2 for p in ps) and any(len(p) == 1 for p in ps):
+                f.append("one-level-and-multi-level-paths")
         if case["mode"] != "pool":
             f.append("exhaustive:%s/depth<=%d" % (case["alphabet"], case["depth"]))
         n = obs["n"]
